@@ -165,10 +165,15 @@ def generate(rng, tier, idx, force=None):
     if rng.random() < 0.25:
         t0 = tmpls[0]
         ops.insert(0, ["invalidate_def", 0, rng.choice(t0["defs"])["name"]])
+    # Beaker file/dbm: every template with its own cache directory (and one shared module_directory): then even
+    # templates whose module ids collide must not see each other's entries
+    separate = backend in ("beaker-file", "beaker-dbm") and base is None and rng.random() < 0.5
+    if separate:
+        for t in tmpls:
+            for sec in all_sections(t):
+                sec["args"].pop("type", None)  # a section-level 'memory' type would ignore the directory again
     return {"engine": NAME, "property": PROPERTY, "backend": backend, "tmpls": tmpls, "ops": ops, "faults": [], "base": base,
-            # Beaker file/dbm: every template with its own cache directory (and one shared module_directory): then even
-            # templates whose module ids collide must not see each other's entries
-            "separate_dirs": backend in ("beaker-file", "beaker-dbm") and base is None and rng.random() < 0.5}
+            "separate_dirs": separate}
 
 
 def all_sections(t):
@@ -231,6 +236,7 @@ def simplifications(trace):
     if trace["backend"] != "simrec":
         c = copy.deepcopy(trace)
         c["backend"] = "simrec"
+        c["separate_dirs"] = False
         for t in c["tmpls"]:
             for sec in all_sections(t):
                 sec["args"].pop("type", None)
@@ -406,7 +412,7 @@ class Harness:
             mid = re.sub(r"\W", "_", t["uri"])
             ids.setdefault(mid, []).append(ti)
         self.colliding = {ti: [o for o in grp if o != ti] for grp in ids.values() for ti in grp if len(grp) > 1}
-        if trace.get("separate_dirs"):
+        if trace.get("separate_dirs") and self.backend in ("beaker-file", "beaker-dbm"):
             self.colliding = {}  # separate backend directories: nothing may be shared, judge at full strength
             self.probe("separate-cache-dirs")
         if self.colliding:
@@ -430,7 +436,7 @@ class Harness:
             kw["cache_impl"] = "beaker"
             cache_args.setdefault("type", b.split("-")[1])
             cache_args["dir"] = self.cache_dir
-            if self.trace.get("separate_dirs") and ti is not None:
+            if self.trace.get("separate_dirs") and ti is not None and b in ("beaker-file", "beaker-dbm"):
                 cache_args["dir"] = os.path.join(self.cache_dir, "t%d" % ti)
                 os.makedirs(cache_args["dir"], exist_ok=True)
                 kw["module_directory"] = os.path.join(self.root, "shared_moddir")
